@@ -157,7 +157,7 @@ int main(int argc, char **argv) {
             c.cfg.push_back(quick ? *gx::pick({1, 3, 10, 30}) : *gx::pick({1, 10, 100, 1000}));
             return c;
         });
-        ok = run_cases(a, ev, "c19-histories", a.n(1500, 4000), 100, gen, run);
+        ok = run_cases(a, ev, "c19-histories", a.n(4000, 8000), 100, gen, run);
     }
     ev.write(a.out);
     return ok ? 0 : 1;
